@@ -4,9 +4,11 @@
 mod arith;
 mod conc;
 mod eqv;
+mod lang;
 mod prec;
 mod print;
 mod probe;
+mod render;
 mod seqs;
 mod stdlibx;
 mod total;
@@ -37,6 +39,7 @@ fn main() {
             "conc" => out(&conc::run(&args[2..])),
             "stdlibx" => out(&stdlibx::run(&args[2..])),
             "total" => out(&total::run(&args[2..])),
+            "lang" => out(&lang::run(&args[2..])),
             "run" => {
                 let text = if args[2] == "-" { std::io::read_to_string(std::io::stdin()).unwrap() } else { args[2].clone() };
                 out(&probe::run_text(&text, true))
